@@ -20,6 +20,7 @@
 -/
 import Aqv.Lemmas.Tx
 import Aqv.Lemmas.TxVm
+import Aqv.Lemmas.TxVmNonce
 import Aqv.Lemmas.Translated.Tx
 namespace Aqv.Props.C06
 open Aqv.Tx
@@ -792,6 +793,34 @@ theorem process_gas_le_limit_over_vm (hf fz : World ρ → World ρ) (limit : Na
 
 end OverVm
 
+/-- **nonce_plus_one_over_vm.** Over the modelled interpreter `SenderIsEOA` is not assumed: from a pre-state with no code at the
+    signer (`NoCodeAtSigner`; a signer has code only if some CREATE address keccak(rlp(creator, nonce)) hit a key-controlled
+    address) and an oracle whose effects respect a code-less signer (`CodeDiscipline`: they install no code there and do not
+    move its nonce — only a frame executing AS an account bumps that account's nonce), an accepted transaction carries the
+    account's nonce, leaves it exactly one higher, and the signer is still code-less afterwards (so the assumption carries
+    over to the signer's next transaction). -/
+theorem nonce_plus_one_over_vm {hasCode : ρ → Addr → Bool} (venv : Vm.Env) (orc : Oracle ρ) (hO : OracleOk orc)
+    (hC : CodeDiscipline hasCode orc) (refund : World ρ → Nat) (fin : World ρ → World ρ) (cb : Addr)
+    {m : Msg} {gp : Nat} {w : World ρ} {r : TxOk ρ}
+    (h : transitionDb (vmEnv venv orc refund fin cb) m gp w = .ok r) (hno : NoCodeAtSigner hasCode m w)
+    (hwrap : lookup w.nonce m.sender < uint64Max) :
+    lookup r.world.nonce m.sender = lookup w.nonce m.sender + 1 ∧
+    (m.checkNonce = true → m.nonce = lookup w.nonce m.sender) ∧
+    hasCode r.world.rest m.sender = false := by
+  obtain ⟨hn, _, _, ig, _, _, hne, rfl⟩ := transitionDb_ok h
+  have hpre : hasCode (preWorld m w).rest m.sender = false := by rw [preWorld_rest]; exact hno
+  obtain ⟨s1, s2⟩ := signer_nonce_over_vm venv orc hO hC m (m.gas - ig) (preWorld m w) hpre hne
+  have hinc : nonceInc (lookup w.nonce m.sender) = lookup w.nonce m.sender + 1 := by
+    unfold nonceInc; exact Nat.mod_eq_of_lt (by omega)
+  refine ⟨?_, fun hc => (hn hc).symm, by simp only [addBal_rest]; exact s1⟩
+  simp only [addBal_nonce]
+  show lookup (vmRun venv orc m (m.gas - ig) (preWorld m w)).world.nonce m.sender = _
+  rw [s2, preWorld_nonce_sender]
+  cases m.to <;> simp [hinc]
+
+-- (per transaction on purpose: across a block an earlier transaction may CREATE, and that its address is none of the later
+--  signers is the hash assumption again — `NoCodeAtSigner` is re-assumed on each transaction's own pre-state.)
+
 /-- non-vacuity over the real machine: a callee that is a single `INVALID` (0xfe) under the spring rule set of C07 — the frame
     fails, all 9000 gas is consumed, the value stays with the sender; and a callee that is `STOP`. -/
 def invalidOrc (op : Nat) : Oracle Nat := fun m _ w _ =>
@@ -805,6 +834,28 @@ example : summary (transitionDb (vmEnv Props.C07.envSpring (invalidOrc 0xfe) (fu
     some (30000, true, 70000, [(1000000 - 60000, 6), (50 + 60000, 0), (0, 0)]) := by decide
 example : summary (transitionDb (vmEnv Props.C07.envSpring (invalidOrc 0x00) (fun w => w.rest) id 2) m0 100000 w0) [1, 2, 3] =
     some (21000, false, 79000, [(1000000 - 42000 - 100, 6), (50 + 42000, 0), (100, 0)]) := by decide
+
+/-- non-vacuity for `nonce_plus_one_over_vm`: an oracle whose only nonce effect is the depth-0 Create's bump, over a state
+    space without code (`hasCode := false`). -/
+def eoaOrc (op : Nat) : Oracle Nat := fun m _ w t =>
+  { op := op, args := [], canTransfer := decide (m.value ≤ lookup w.bal m.sender),
+    nonceEff := fun w' => if t = 0 then setNonce w' m.sender (nonceInc (lookup w'.nonce m.sender)) else w',
+    xferEff := fun w' => addBal (subBal w' m.sender m.value) 3 m.value }
+
+theorem eoaOrc_ok (op : Nat) : OracleOk (eoaOrc op) := ⟨fun _ _ _ => rfl, fun _ _ _ _ => rfl⟩
+
+theorem eoaOrc_discipline (op : Nat) : CodeDiscipline (fun _ _ => false) (eoaOrc op) := by
+  constructor
+  · intro m g w t w' _; exact ⟨rfl, rfl, rfl, rfl, rfl, rfl⟩
+  · intro m g w t w' _
+    refine ⟨rfl, rfl, rfl, by simp [eoaOrc], rfl, fun ht => ?_⟩
+    have : t ≠ 0 := by omega
+    simp [eoaOrc, this]
+
+-- a creation through the real machine: nonce 5 → 6, exactly once
+example : summary (transitionDb (vmEnv Props.C07.envSpring (eoaOrc 0x00) (fun w => w.rest) id 2) { m0 with to := none, gas := 60000 } 100000 w0) [1] =
+    some (53000, false, 47000, [(1000000 - 106000 - 100, 6)]) := by decide
+example : NoCodeAtSigner (fun (_ : Nat) _ => false) m0 w0 := rfl
 
 /-- **builtin_configs_homestead** (T-gen). Every built-in chain configuration is Homestead from block 0, so the hypothesis
     `env.homestead = true` of `failed_exec_only_gas` holds on all of them (pre-Homestead rules keep a creation whose code
